@@ -127,11 +127,14 @@ def registry (j : Json) : Except String Registry := do
     pure (← val a[0]!, ← sstr a[1]!, ← val a[2]!)
   pure { mods := mods, attrs := attrs }
 
-/-- {"exceptUnbind": b, "augLoad": b, "forIterFirst": b, "annValueFirst": b, "compScope": b}; absent = false -/
+/-- {"exceptUnbind": b, "augLoad": b, "forIterFirst": b, "annValueFirst": b, "compScope": b, "paramAnnOuter": b}; absent = false -/
 def fixes (j : Json) : Fixes :=
   let g (k : String) : Bool := match j.getObjValAs? Bool k with | .ok b => b | .error _ => false
   { exceptUnbind := g "exceptUnbind", augLoad := g "augLoad", forIterFirst := g "forIterFirst",
-    annValueFirst := g "annValueFirst", compScope := g "compScope" }
+    annValueFirst := g "annValueFirst", compScope := g "compScope", paramAnnOuter := g "paramAnnOuter",
+    allUseMark := g "allUseMark", delDotted := g "delDotted",
+    condStore := g "condStore", deferredNames := g "deferredNames", classModuleOnly := g "classModuleOnly",
+    returnsOuter := g "returnsOuter" }
 
 def valJ : Val → Json
   | .none => Json.null
